@@ -20,7 +20,7 @@ func init() {
 			"R4 every loop of the lexer/parser/splitter has a progress event (token consumption while the kind state excludes <eof>, or a strictly increasing cursor) on each feasible cycle. " +
 			"R5 the error result of entry points carries only MultiError / *Error, node results of single-node functions are never nil. " +
 			"Decides: containment of syntax-error panics, recovery discipline, loop progress. Does not decide: run-time panics from byte arithmetic (index/slice bounds), recursion depth.",
-		Rules: []ruleFn{ruleC03R1, ruleC03R2, ruleC03R3, ruleC03R4, ruleC03R5, ruleC03R6, ruleC13R3, ruleC03R8, ruleC20R3, ruleC20R4, ruleC03R9},
+		Rules: []ruleFn{ruleC03R1, ruleC03R2, ruleC03R3, ruleC03R4, ruleC03R5, ruleC03R6, ruleC13R3, ruleC03R8, ruleC20R3, ruleC20R4, ruleC03R9, ruleC13R6},
 	})
 }
 
